@@ -7,6 +7,7 @@ OK(e) == OutcomeOK(Want(e), e) /\ (e.k = "req" => e.want = Expect(e.r))
 LevelName(s, n) == IF s = "dav" THEN (IF n = 0 THEN "root" ELSE IF n = 1 THEN "file" ELSE IF n = 2 THEN "dir" ELSE "absent")
                    ELSE IF n = 0 THEN "root" ELSE IF n = 1 THEN "principal" ELSE IF n = 2 THEN "homeset" ELSE IF n = 3 THEN "collection" ELSE IF n = 4 THEN "object" ELSE "deeper"
 Why(e) == IF e.panic THEN "panic in " \o e.panicin ELSE IF e.st < 100 \/ e.st > 599 THEN "no-complete-response"
+          ELSE IF ~e.bodyok THEN "body-breaks-off st=" \o ToString(e.st)
           ELSE IF e.st >= 500 THEN "5xx st=" \o ToString(e.st) ELSE IF e.mut > 0 THEN "backend-mutated st=" \o ToString(e.st) ELSE "malformed-accepted st=" \o ToString(e.st)
 \* the one panic that originates in the pinned go-ical dependency is identified by where it is raised, not by how the input was found
 IcalPeek == "github.com/emersion/go-ical.(*lineDecoder).peek"
